@@ -2,6 +2,7 @@
 
 from __future__ import annotations
 
+from contextlib import contextmanager
 from dataclasses import dataclass, field
 from typing import TYPE_CHECKING, Literal, overload
 
@@ -96,6 +97,15 @@ class Simulation:
             include_surrogates=True,
         )
 
+    @contextmanager
+    def _keep_model_parameters(self) -> Iterator[None]:
+        """Restore the parameters of the shared model after using segment parameters."""
+        parameters = self.model.get_raw_parameters()
+        try:
+            yield
+        finally:
+            self.model.update_parameters(parameters)
+
     def _compute_args(self) -> list[pd.DataFrame]:
         # Already computed
         if len(self.raw_args) > 0:
@@ -103,21 +113,22 @@ class Simulation:
 
         # Compute new otherwise; only keep the result if every segment succeeded
         raw_args: list[pd.DataFrame] = []
-        for res, p in zip(self.raw_variables, self.raw_parameters, strict=True):
-            self.model.update_parameters(p)
-            raw_args.append(
-                self.model.get_args_time_course(
-                    variables=res,
-                    include_variables=True,
-                    include_parameters=True,
-                    include_derived_parameters=True,
-                    include_derived_variables=True,
-                    include_reactions=True,
-                    include_surrogate_variables=True,
-                    include_surrogate_fluxes=True,
-                    include_readouts=True,
+        with self._keep_model_parameters():
+            for res, p in zip(self.raw_variables, self.raw_parameters, strict=True):
+                self.model.update_parameters(p)
+                raw_args.append(
+                    self.model.get_args_time_course(
+                        variables=res,
+                        include_variables=True,
+                        include_parameters=True,
+                        include_derived_parameters=True,
+                        include_derived_variables=True,
+                        include_reactions=True,
+                        include_surrogate_variables=True,
+                        include_surrogate_fluxes=True,
+                        include_readouts=True,
+                    )
                 )
-            )
         self.raw_args = raw_args
         return self.raw_args
 
@@ -425,13 +436,15 @@ class Simulation:
     ) -> pd.DataFrame | list[pd.DataFrame]:
         """Get right hand side over time."""
         args_by_simulation = self._compute_args()
-        return self._adjust_data(
-            [
+        with self._keep_model_parameters():
+            rhs = [
                 self.model.update_parameters(p).get_right_hand_side_time_course(
                     args=args
                 )
                 for args, p in zip(args_by_simulation, self.raw_parameters, strict=True)
-            ],
+            ]
+        return self._adjust_data(
+            rhs,
             normalise=normalise,
             concatenated=concatenated,
         )
@@ -475,27 +488,29 @@ class Simulation:
         concatenated: bool = True,
     ) -> pd.DataFrame | list[pd.DataFrame]:
         """Get fluxes of variable with positive stoichiometry."""
-        self.model.update_parameters(self.raw_parameters[0])
-        names = [
-            k
-            for k, v in self.model.get_stoichiometries_of_variable(variable).items()
-            if v > 0
-        ]
+        with self._keep_model_parameters():
+            self.model.update_parameters(self.raw_parameters[0])
+            names = [
+                k
+                for k, v in self.model.get_stoichiometries_of_variable(
+                    variable
+                ).items()
+                if v > 0
+            ]
 
-        fluxes: list[pd.DataFrame] = [
-            i.loc[:, names]
-            for i in self.get_fluxes(normalise=normalise, concatenated=False)
-        ]
+            fluxes: list[pd.DataFrame] = [
+                i.loc[:, names]
+                for i in self.get_fluxes(normalise=normalise, concatenated=False)
+            ]
 
-        if scaled:
-            fluxes = [i.copy() for i in fluxes]
-            for v, p in zip(fluxes, self.raw_parameters, strict=True):
-                self.model.update_parameters(p)
-                stoichs = self.model.get_stoichiometries_of_variable(variable)
-                for k in names:
-                    v.loc[:, k] *= stoichs[k]
+            if scaled:
+                fluxes = [i.copy() for i in fluxes]
+                for v, p in zip(fluxes, self.raw_parameters, strict=True):
+                    self.model.update_parameters(p)
+                    stoichs = self.model.get_stoichiometries_of_variable(variable)
+                    for k in names:
+                        v.loc[:, k] *= stoichs[k]
 
-        self.model.update_parameters(self.raw_parameters[-1])
         if concatenated:
             return pd.concat(fluxes, axis=0)
         return fluxes
@@ -539,27 +554,29 @@ class Simulation:
         concatenated: bool = True,
     ) -> pd.DataFrame | list[pd.DataFrame]:
         """Get fluxes of variable with negative stoichiometry."""
-        self.model.update_parameters(self.raw_parameters[0])
-        names = [
-            k
-            for k, v in self.model.get_stoichiometries_of_variable(variable).items()
-            if v < 0
-        ]
+        with self._keep_model_parameters():
+            self.model.update_parameters(self.raw_parameters[0])
+            names = [
+                k
+                for k, v in self.model.get_stoichiometries_of_variable(
+                    variable
+                ).items()
+                if v < 0
+            ]
 
-        fluxes: list[pd.DataFrame] = [
-            i.loc[:, names]
-            for i in self.get_fluxes(normalise=normalise, concatenated=False)
-        ]
+            fluxes: list[pd.DataFrame] = [
+                i.loc[:, names]
+                for i in self.get_fluxes(normalise=normalise, concatenated=False)
+            ]
 
-        if scaled:
-            fluxes = [i.copy() for i in fluxes]
-            for v, p in zip(fluxes, self.raw_parameters, strict=True):
-                self.model.update_parameters(p)
-                stoichs = self.model.get_stoichiometries_of_variable(variable)
-                for k in names:
-                    v.loc[:, k] *= -stoichs[k]
+            if scaled:
+                fluxes = [i.copy() for i in fluxes]
+                for v, p in zip(fluxes, self.raw_parameters, strict=True):
+                    self.model.update_parameters(p)
+                    stoichs = self.model.get_stoichiometries_of_variable(variable)
+                    for k in names:
+                        v.loc[:, k] *= -stoichs[k]
 
-        self.model.update_parameters(self.raw_parameters[-1])
         if concatenated:
             return pd.concat(fluxes, axis=0)
         return fluxes
